@@ -29,7 +29,8 @@ TRUSTED = ['Lean 4.33 kernel', 'axioms: propext, Classical.choice, Quot.sound',
            'correspondence harness harness/props/c10.py (object identity -> numbers; the SymPy tree of every '
            'right-hand side is read back into the model\'s expression type: Add/Mul left-nested in args order, '
            'Mul(-1, b) inside a sum as subtraction, Pow(b, -1) inside a product as division, Quantity/Integer/'
-           'Rational/Float leaves as exact rationals, anything else opaque with its reference set)',
+           'Rational/Float leaves as exact rationals, anything else an uninterpreted application: its printed form '
+           '(term_id) as identity and its sorted reference set as argument places)',
            'SymPy (automatic canonicalisation when an equation is built, xreplace, float()) is used as it is: the '
            'model evaluates the tree SymPy holds exactly over the rationals, the implementation evaluates it in '
            'binary64/mpmath; values are compared with a first-order rounding bound (1e-12 x condition), not bit '
@@ -42,7 +43,11 @@ ASSUMPTIONS = ['well-formed = each variable at most one definition, all ODEs sha
                'which of several errors an ill-formed model raises first depends on set iteration order: for '
                'ill-formed content only "raises" vs "returns" is compared',
                'functions other than + - * / and integer powers (exp, log, piecewise ... in loaded documents) are '
-               'opaque to the model: roles are compared, values only through the float reference evaluator']
+               'UNINTERPRETED applications in the model (Expr.opq id args; the theorems hold for every interpretation '
+               'fn: the value of such a sub-term is a function of its printed form and of the values of the variables / '
+               'derivatives it refers to). The compiled driver has no interpretation (Interp.none): it evaluates the '
+               'references as the code does and answers unsupported where the value of an opaque sub-term is needed; '
+               'there roles are compared, values only through the float reference evaluator']
 FINGERPRINT = {'cellmlmanip/model.py': [
     'Model.get_free_variable', 'Model.get_state_variables', 'Model.get_derivatives', 'Model.get_derived_quantities',
     'Model.is_state', 'Model.is_constant', 'Model.get_value', 'Model._get_value', 'Model.graph']}
@@ -1100,10 +1105,30 @@ def tag(case, obs):
 
 
 # ---------------------------------------------------------------------------------------------- model
+def term_id(e):
+    """the printed form of a serialised tree: the identity of an opaque sub-term on the wire (class names, structure,
+    numbers, node numbers: two sub-terms with the same id are the same term as far as `ser` reads it)"""
+    if not isinstance(e, list):
+        return str(e)
+    op = e[0]
+    if op == 'n':
+        return str(Fraction(e[1]))
+    if op == 'v':
+        return 'v%s' % (e[1],)
+    if op == 'd':
+        return 'd%s_%s' % (e[1], e[2])
+    if op == 'fn':
+        return '%s(%s)' % (e[1], ','.join(term_id(a) for a in e[2:]))
+    if op == '^':
+        return '(%s^%s)' % (term_id(e[1]), e[2])
+    return '(%s%s%s)' % (term_id(e[1]), op, term_id(e[2]))
+
+
 def wire_expr(e):
     if e[0] == 'fn':
+        # an uninterpreted application for the model: its identity and its references (one argument place each)
         refs = sorted(ser_refs(e, set()))
-        return ['opq'] + [list(r) for r in refs]
+        return ['opq', Str(term_id(e))] + [list(r) for r in refs]
     if e[0] in ('n',):
         return ['n', Fraction(e[1])]
     if e[0] in ('v', 'd'):
@@ -1218,7 +1243,10 @@ MANIFEST = {
              'free_none_iff, derivs_exact, derived_exact, graph_queries_return, constant_iff_no_var; getValue_fuel '
              '(|variables|+1 levels of recursion suffice, never RecursionError, more fuel changes nothing), '
              'getValue_denotes (get_value(v) = q IFF the definition closure of v denotes q at the initial state: '
-             'states at initial values, free variable 0, a derivative = the right-hand side of its ODE, recursively; '
+             'states at initial values, free variable 0, a derivative = the right-hand side of its ODE, recursively, '
+             'a function application other than + - * / ^int = an UNINTERPRETED application whose value is fn(printed '
+             'term, values of its references) - every theorem is for EVERY interpretation fn, as C02 / C05 treat '
+             'transcendental functions (opaque_value, opaque_no_value: b = exp(a) * 2); '
              'when the definitions give no number it raises), value_unique; roles_history_independent (ANY two '
              'histories of API calls reaching the same variables and equation list give the same seven answers; '
              'corollary of C08 inv_reachable), roles_as_fresh, roles_equation_order_independent (well-formed models '
@@ -1234,7 +1262,11 @@ MANIFEST = {
     'note': ('Trusted: Lean kernel; propext, Classical.choice, Quot.sound; the correspondence harness (object identity '
              '-> numbers, SymPy trees read back into the model\'s expression type). SymPy is used as it is: its '
              'canonicalisation when an equation is built decides which tree the model holds, and binary64 results are '
-             'compared with a first-order rounding bound. Functions other than + - * / and integer powers are opaque '
-             'to the model (roles compared, values via the float reference only). For ill-formed content (mid-history) '
+             'compared with a first-order rounding bound. Functions other than + - * / and integer powers are uninterpreted '
+             'applications in the model (Expr.opq): the theorems (getValue_denotes, getValue_fuel, '
+             'roles_history_independent ...) hold for EVERY interpretation fn of them, under the reading that the value '
+             'of such a sub-term is a function of its printed form and of the values of its references; the compiled '
+             'driver has no interpretation, so in the differential test roles are compared there and values via the '
+             'float reference only. For ill-formed content (mid-history) '
              'only raises-vs-returns is compared. Division by zero at the initial state is outside the property.'),
 }
